@@ -337,6 +337,9 @@ def rule_rt_pair(ctx, cfg, F):
                 wake = [b2 for b2, t2 in f.calls() if is_wakeup_send(t2)]
                 if wake:
                     ok, wit = f.all_paths_pass(t["to"], wake) if t["to"] >= 0 else (False, None)
+                    if not ok:
+                        # wake-up first, control message after it on every normal path
+                        ok = any(f.term(w)["to"] >= 0 and f.all_paths_pass(f.term(w)["to"], [b])[0] and f.dominates(w, b) for w in wake)
                     if ok:
                         R.ok("control send in %s is followed by a wake-up on every path" % f.path, f.loc(b), cfg)
                         for w in wake:
@@ -423,7 +426,30 @@ def rule_stop_flag(ctx, cfg, F):
         if bad:
             R.violate("%s:guard-released-before-send" % f.path, "the proxy mutex guard is released before the sends complete", f.path, f.loc(bad[0]), config=cfg)
             continue
-        R.ok("%s: flag test dominates %d sends; flag-set edge sends nothing; guard held across the sends" % (f.path, len(sends)), f.loc(flag_switch), cfg)
+        # the function that sets the flag also waits for the acknowledgement: that wait must happen under the guard too,
+        # otherwise a concurrent second shutdown() sees the flag and returns while the router is still running
+        sets_flag = any(st["s"] == "assign" and st["lhs"].get("p") and _place_type(f, st["lhs"]) == "bool" and op_const(st["rv"]["a"][0]) == 1
+                        for b in f.live_blocks() for st in f.stmts(b) if st["s"] == "assign" and st["rv"]["r"] == "use")
+        if sets_flag:
+            waits = [b for b, t in f.calls() if strip_generics(callee_name(t)) == "crossbeam_channel::Receiver::recv" and "()" in " ".join(t.get("generics", []))]
+            # closure form: Result::map(wakeup result, closure that sends and waits)
+            for b, t in f.calls():
+                if strip_generics(callee_name(t)) in ("std::result::Result::map", "std::result::Result::and_then"):
+                    trp = Tracer(f)
+                    for a in t["args"][1:]:
+                        for r in trp.roots_of_operand(a):
+                            g = F.fns.get(r.id) if r.kind == "agg" else None
+                            if g is not None and any(strip_generics(callee_name(t2)) == "crossbeam_channel::Receiver::recv" for _, t2 in g.calls()):
+                                waits.append(b)
+            if not waits:
+                R.violate("%s:no-ack-wait" % f.path, "%s sets the shutdown flag but never waits for the router's acknowledgement" % f.path, f.path, f.loc(flag_switch), config=cfg)
+                continue
+            late = [g_ for g_ in guard_drops if any(w in f.reachable(g_) for w in waits)]
+            if late:
+                R.violate("%s:ack-wait-outside-guard" % f.path, "the proxy mutex is released before the acknowledgement is awaited: a second shutdown() racing with the first sees the flag set "
+                          "and returns while the router thread is still running", f.path, f.loc(late[0]), config=cfg)
+                continue
+        R.ok("%s: flag test dominates %d sends; flag-set edge sends nothing; guard held across the sends%s" % (f.path, len(sends), " and the acknowledgement wait" if sets_flag else ""), f.loc(flag_switch), cfg)
     R.count("proxy_senders[%s]" % cfg, n)
 
 
